@@ -134,6 +134,17 @@ func main() {
 	bin := filepath.Join(root, "bin", strings.ToLower(prop)+".test")
 	os.MkdirAll(filepath.Join(root, "bin"), 0o755)
 	args := []string{"test", "-c", "-tags", "verif", "-o", bin}
+	if alt := os.Getenv("VERIF_REPO"); alt != "" && alt != "/repo" {
+		// build against another copy of the repository (mutant / scratch worktree): the
+		// harness module is used with an alternative go.mod whose replace points there
+		mf, err := altModfile(root, alt)
+		if err != nil {
+			die(2, "INFRA: %v", err)
+		}
+		bin = filepath.Join(root, "bin", strings.ToLower(prop)+"-"+filepath.Base(alt)+".test")
+		args = []string{"test", "-c", "-tags", "verif", "-modfile", mf, "-o", bin}
+		fmt.Printf("NOTE: building against %s\n", alt)
+	}
 	if cfg.Race {
 		args = append(args, "-race")
 	}
@@ -393,6 +404,24 @@ func main() {
 		die(2, "INFRA: run produced no non-trivial cases (generator problem)")
 	}
 	os.Exit(0)
+}
+
+func altModfile(root, alt string) (string, error) {
+	b, err := os.ReadFile(filepath.Join(root, "go.mod"))
+	if err != nil {
+		return "", err
+	}
+	dir := filepath.Join(root, "bin", "modfiles")
+	os.MkdirAll(dir, 0o755)
+	name := strings.NewReplacer("/", "_").Replace(strings.Trim(alt, "/"))
+	mf := filepath.Join(dir, name+".mod")
+	nb := bytes.ReplaceAll(b, []byte("=> /repo"), []byte("=> "+alt))
+	if err := os.WriteFile(mf, nb, 0o644); err != nil {
+		return "", err
+	}
+	sum, _ := os.ReadFile(filepath.Join(root, "go.sum"))
+	os.WriteFile(filepath.Join(dir, name+".sum"), sum, 0o644)
+	return mf, nil
 }
 
 func keys(m map[string]bool) []string {
